@@ -278,7 +278,7 @@ def collect(rep, ids, results, out, crate_dir, harness_timeout, max_replays, stu
                 rep.inconclusive.append(entry)
             else:
                 rep.discharged += 1
-                rep.obligations_ok.add((entry["decl"], entry["bundle"], h.kind, h.fn))
+                rep.obligations_ok.add((hid.rsplit("::", 1)[0], h.kind, h.fn))
         elif r.status == "fail":
             fails = r.failures
             if h.ub_only:
@@ -288,7 +288,7 @@ def collect(rep, ids, results, out, crate_dir, harness_timeout, max_replays, stu
                     entry["status"] = "pass"
                     entry["non_ub_failures"] = [c.get("description") for c in r.failures][:4]
                     rep.discharged += 1
-                    rep.obligations_ok.add((entry["decl"], entry["bundle"], h.kind, h.fn))
+                    rep.obligations_ok.add((hid.rsplit("::", 1)[0], h.kind, h.fn))
                     rep.harness_results[hid] = entry
                     continue
             entry["failed_checks"] = [{"description": c.get("description"), "function": c.get("function"),
